@@ -43,6 +43,7 @@ pub fn dispatch(req: &Value) -> Value {
         "relations" => op_relations(req),
         "total" => op_total(req),
         "ext" => op_ext(req),
+        "rel_wrap" => op_rel_wrap(req),
         "lossy_rel" => op_lossy_rel(req),
         "deb822_edit" => op_deb822_edit(req),
         "satisfied" => op_satisfied(req),
@@ -480,4 +481,21 @@ fn op_lossy_rel(req: &Value) -> Value {
     } }
     let entry_conv: Vec<Value> = entries.iter().map(|e| guarded(|| { let en: lossless::relations::Entry = e.clone().into(); let t = en.to_string(); let back: Vec<lossy::Relation> = en.into(); json!({"text": t, "back_eq": &back == e}) })).collect();
     json!({"text": text, "back": back, "lossless": lossless_read, "relations": per, "entries": entry_conv})
+}
+
+/// C13: Relations::wrap_and_sort on a parsed field: output text, its structure, sortedness under the crate's own Ord, second application
+fn op_rel_wrap(req: &Value) -> Value {
+    use debian_control::lossless::relations::Relations;
+    let text = s(req, "s");
+    let (r, errs) = Relations::parse_relaxed(&text, true);
+    if !errs.is_empty() { return json!({"input_errors": errs.len()}); }
+    let out = r.wrap_and_sort();
+    let t1 = out.to_string();
+    let sorted_entries = { let es: Vec<_> = out.entries().collect(); es.windows(2).all(|w| w[0] <= w[1]) };
+    let sorted_alts: Vec<bool> = out.entries().map(|e| { let rs: Vec<_> = e.relations().collect(); rs.windows(2).all(|w| w[0] <= w[1]) }).collect();
+    let (re, e2) = Relations::parse_relaxed(&t1, true);
+    let strict_ok = Relations::from_str(&t1).is_ok();
+    let t2 = guarded(|| json!(Relations::parse_relaxed(&t1, true).0.wrap_and_sort().to_string()));
+    json!({"text": t1, "reparse_errors": e2.len(), "strict_ok": strict_ok, "structure": rels_struct(&re), "live_structure": rels_struct(&out),
+           "sorted_entries": sorted_entries, "sorted_alts": sorted_alts, "text2": t2})
 }
